@@ -195,7 +195,139 @@ Definition base_class : list (string * string * mclass) := [
   ("ValidationContextImpl", "fValidatingMemberType", Infra); (* set at each use (union validation) *)
   ("ValidationContextImpl", "fElemStack", Infra);
   ("ValidationContextImpl", "fScanner", Infra);
-  ("ValidationContextImpl", "fNamespaceScope", Infra)        (* set at use (SchemaInfo) *)
+  ("ValidationContextImpl", "fNamespaceScope", Infra);       (* set at use (SchemaInfo) *)
+  (* ---- AbstractDOMParser (parse(const InputSource&) prologue, reset() = the resetDocument callback) ------ *)
+  ("AbstractDOMParser", "fCreateEntityReferenceNodes", Config);
+  ("AbstractDOMParser", "fIncludeIgnorableWhitespace", Config);
+  ("AbstractDOMParser", "fWithinElement", PerParse);
+  ("AbstractDOMParser", "fParseInProgress", PerParse);       (* busy flag: false whenever a parse may start (LS15.v) *)
+  ("AbstractDOMParser", "fCreateCommentNodes", Config);
+  ("AbstractDOMParser", "fDocumentAdoptedByUser", PerParse); (* ownership of the CURRENT document (DocPool15.v) *)
+  ("AbstractDOMParser", "fCreateSchemaInfo", Config);
+  ("AbstractDOMParser", "fDoXInclude", Config);
+  ("AbstractDOMParser", "fScanner", Infra);
+  ("AbstractDOMParser", "fImplementationFeatures", Config);
+  ("AbstractDOMParser", "fCurrentParent", PerParse);
+  ("AbstractDOMParser", "fCurrentNode", PerParse);
+  ("AbstractDOMParser", "fCurrentEntity", PerParse);
+  ("AbstractDOMParser", "fDocument", PerParse);
+  ("AbstractDOMParser", "fDocumentType", PerParse);
+  ("AbstractDOMParser", "fDocumentVector", Cache);           (* documents of earlier parses, owned by the parser (DocPool15.v) *)
+  ("AbstractDOMParser", "fGrammarResolver", Infra);
+  ("AbstractDOMParser", "fURIStringPool", Cache);
+  ("AbstractDOMParser", "fValidator", Infra);                (* fixed at construction *)
+  ("AbstractDOMParser", "fMemoryManager", Infra);
+  ("AbstractDOMParser", "fGrammarPool", Infra);
+  ("AbstractDOMParser", "fBufMgr", Infra);
+  ("AbstractDOMParser", "fInternalSubset", PerParse);
+  ("AbstractDOMParser", "fPSVIHandler", Infra);
+  (* ---- DOMLSParserImpl (parse(const DOMLSInput* ) prologue) ------------------------------------------------ *)
+  ("DOMLSParserImpl", "fEntityResolver", Infra);
+  ("DOMLSParserImpl", "fXMLEntityResolver", Infra);
+  ("DOMLSParserImpl", "fErrorHandler", Infra);
+  ("DOMLSParserImpl", "fFilter", Config);                    (* setFilter; ALSO overwritten by abort() and the prologue: F15a *)
+  ("DOMLSParserImpl", "fCharsetOverridesXMLEncoding", Config);
+  ("DOMLSParserImpl", "fUserAdoptsDocument", Config);
+  ("DOMLSParserImpl", "fSupportedParameters", Infra);
+  ("DOMLSParserImpl", "fFilterAction", PerParse);
+  ("DOMLSParserImpl", "fFilterDelayedTextNodes", PerParse);
+  ("DOMLSParserImpl", "fWrapNodesInDocumentFragment", Infra);  (* written and cleared by parseWithContext around the parse (LS15.v) *)
+  ("DOMLSParserImpl", "fWrapNodesContext", Infra);
+  ("DOMLSParserImpl", "fWrapNodesAction", Infra);
+  (* ---- SAXParser (parse(const InputSource&) prologue, resetDocument) -------------------------------------- *)
+  ("SAXParser", "fParseInProgress", PerParse);
+  ("SAXParser", "fElemDepth", PerParse);
+  ("SAXParser", "fAdvDHCount", Config);                      (* installed advanced handlers *)
+  ("SAXParser", "fAdvDHListSize", Cache);
+  ("SAXParser", "fAttrList", Infra);                         (* set at each start tag *)
+  ("SAXParser", "fDocHandler", Infra);
+  ("SAXParser", "fDTDHandler", Infra);
+  ("SAXParser", "fEntityResolver", Infra);
+  ("SAXParser", "fXMLEntityResolver", Infra);
+  ("SAXParser", "fErrorHandler", Infra);
+  ("SAXParser", "fPSVIHandler", Infra);
+  ("SAXParser", "fAdvDHList", Infra);
+  ("SAXParser", "fScanner", Infra);
+  ("SAXParser", "fGrammarResolver", Infra);
+  ("SAXParser", "fURIStringPool", Cache);
+  ("SAXParser", "fValidator", Infra);
+  ("SAXParser", "fMemoryManager", Infra);
+  ("SAXParser", "fGrammarPool", Infra);
+  ("SAXParser", "fElemQNameBuf", Infra);
+  (* ---- SAX2XMLReaderImpl (parse(const InputSource&) prologue, resetDocument) ------------------------------ *)
+  ("SAX2XMLReaderImpl", "fNamespacePrefix", Config);
+  ("SAX2XMLReaderImpl", "fAutoValidation", Config);          (* FeatSeq15.v *)
+  ("SAX2XMLReaderImpl", "fValidation", Config);
+  ("SAX2XMLReaderImpl", "fParseInProgress", PerParse);
+  ("SAX2XMLReaderImpl", "fHasExternalSubset", Infra);        (* written by doctypeDecl before it is read *)
+  ("SAX2XMLReaderImpl", "fElemDepth", PerParse);
+  ("SAX2XMLReaderImpl", "fAdvDHCount", Config);
+  ("SAX2XMLReaderImpl", "fAdvDHListSize", Cache);
+  ("SAX2XMLReaderImpl", "fAttrList", Infra);
+  ("SAX2XMLReaderImpl", "fDocHandler", Infra);
+  ("SAX2XMLReaderImpl", "fTempAttrVec", Infra);
+  ("SAX2XMLReaderImpl", "fPrefixesStorage", PerParse);       (* prefix strings whose ids are on fPrefixes *)
+  ("SAX2XMLReaderImpl", "fPrefixes", PerParse);              (* stack of prefix ids of the open elements *)
+  ("SAX2XMLReaderImpl", "fPrefixCounts", PerParse);          (* prefixes declared per open element *)
+  ("SAX2XMLReaderImpl", "fTempQName", Infra);
+  ("SAX2XMLReaderImpl", "fDTDHandler", Infra);
+  ("SAX2XMLReaderImpl", "fEntityResolver", Infra);
+  ("SAX2XMLReaderImpl", "fXMLEntityResolver", Infra);
+  ("SAX2XMLReaderImpl", "fErrorHandler", Infra);
+  ("SAX2XMLReaderImpl", "fPSVIHandler", Infra);
+  ("SAX2XMLReaderImpl", "fLexicalHandler", Infra);
+  ("SAX2XMLReaderImpl", "fDeclHandler", Infra);
+  ("SAX2XMLReaderImpl", "fAdvDHList", Infra);
+  ("SAX2XMLReaderImpl", "fScanner", Infra);
+  ("SAX2XMLReaderImpl", "fGrammarResolver", Infra);
+  ("SAX2XMLReaderImpl", "fURIStringPool", Cache);
+  ("SAX2XMLReaderImpl", "fValidator", Infra);
+  ("SAX2XMLReaderImpl", "fMemoryManager", Infra);
+  ("SAX2XMLReaderImpl", "fGrammarPool", Infra);
+  (* ---- GrammarResolver (cacheGrammarFromParse + useCachedGrammarInParse, called by every scanReset) -------- *)
+  ("GrammarResolver", "fCacheGrammar", PerParse);            (* copy of the scanner's setting, handed in at every reset *)
+  ("GrammarResolver", "fUseCachedGrammar", PerParse);
+  ("GrammarResolver", "fGrammarPoolFromExternalApplication", Config);   (* fixed at construction *)
+  ("GrammarResolver", "fStringPool", Cache);
+  ("GrammarResolver", "fGrammarBucket", PerParse);           (* the per-parse grammars *)
+  ("GrammarResolver", "fGrammarFromPool", Cache);            (* never changes an answer: T15_cache_transparent *)
+  ("GrammarResolver", "fDataTypeReg", Infra);
+  ("GrammarResolver", "fMemoryManager", Infra);
+  ("GrammarResolver", "fGrammarPool", Infra);                (* modelled separately: Pool15.v / GramUse15.v *)
+  ("GrammarResolver", "fXSModel", Cache);                    (* rebuilt on demand from bucket + pool *)
+  ("GrammarResolver", "fGrammarPoolXSModel", Cache);
+  ("GrammarResolver", "fGrammarsToAddToXSModel", PerParse);
+  (* ---- IdentityConstraintHandler::reset, ValueStoreCache::startDocument ----------------------------------- *)
+  ("IdentityConstraintHandler", "fScanner", Infra);
+  ("IdentityConstraintHandler", "fMemoryManager", Infra);
+  ("IdentityConstraintHandler", "fMatcherStack", PerParse);
+  ("IdentityConstraintHandler", "fValueStoreCache", PerParse);
+  ("IdentityConstraintHandler", "fFieldActivator", Infra);
+  ("ValueStoreCache", "fValueStores", PerParse);
+  ("ValueStoreCache", "fGlobalICMap", PerParse);
+  ("ValueStoreCache", "fIC2ValueStoreMap", PerParse);
+  ("ValueStoreCache", "fGlobalMapStack", PerParse);
+  ("ValueStoreCache", "fScanner", Infra);
+  ("ValueStoreCache", "fMemoryManager", Infra);
+  (* ---- SchemaValidator::reset ------------------------------------------------------------------------------ *)
+  ("SchemaValidator", "fMemoryManager", Infra);
+  ("SchemaValidator", "fSchemaGrammar", Infra);              (* setGrammar at use *)
+  ("SchemaValidator", "fGrammarResolver", Infra);
+  ("SchemaValidator", "fXsiType", PerParse);
+  ("SchemaValidator", "fNil", PerParse);
+  ("SchemaValidator", "fNilFound", PerParse);
+  ("SchemaValidator", "fCurrentDatatypeValidator", PerParse);
+  ("SchemaValidator", "fNotationBuf", Infra);
+  ("SchemaValidator", "fDatatypeBuffer", PerParse);
+  ("SchemaValidator", "fTrailing", PerParse);
+  ("SchemaValidator", "fSeenNonWhiteSpace", PerParse);
+  ("SchemaValidator", "fSeenId", PerParse);
+  ("SchemaValidator", "fSchemaErrorReporter", Infra);
+  ("SchemaValidator", "fTypeStack", PerParse);
+  ("SchemaValidator", "fNilStack", PerParse);
+  ("SchemaValidator", "fMostRecentAttrValidator", Infra);    (* set by every validateAttrValue before it is read *)
+  ("SchemaValidator", "fErrorOccurred", PerParse);
+  ("SchemaValidator", "fElemIsSpecified", Infra)             (* set at each checkContent *)
 ].
 
 (** (inventory, member, class): XMLScanner members that a given scanner never reads or writes *)
@@ -215,7 +347,10 @@ Definition overrides : list (string * string * mclass) := [
 (** (inventory, member, finding id): known offenders of the unchanged tree (known-findings.d/C15.json) *)
 Definition exceptions : list (string * string * string) := [
   ("SGXMLScanner", "fDoNamespaces", "F21b");       (* fDoNamespaces = true  (schema-only scanner forces it) *)
-  ("SGXMLScanner", "fDoSchema", "F21b")            (* fDoSchema = true *)
+  ("SGXMLScanner", "fDoSchema", "F21b");           (* fDoSchema = true *)
+  ("DOMLSParserImpl", "fFilter", "F15a")           (* the parse prologue executes fFilter = 0 after abort(): the application's
+                                                      filter (setFilter) is lost.  fixes/C15-ls-abort-filter.patch keeps it in a
+                                                      member of its own and restores fFilter from it. *)
 ].
 (* history: F21 (fSkipDTDValidation written by IGXMLScanner::scanReset), F15v (fXMLVersion never reset) and F15u
    (schema undeclared-element pools never cleared) were exceptions until the fix: commits ff70eac, b5f9279, 5e37b52. *)
